@@ -36,12 +36,16 @@ def _syscall(pid):
 
 
 def _rchar(pid):
-    """bytes the process has obtained from read() calls so far (all descriptors)"""
-    try:
-        with open("/proc/%d/io" % pid) as f:
-            return int(f.readline().split()[1])
-    except (OSError, ValueError, IndexError):
-        return None
+    """bytes the MAIN THREAD of the process (the one that reads the terminal) has obtained from read() calls so far, on all
+    descriptors. Per thread, not per process: other threads of the child read other things (the pipe standing in for a pager
+    that quits, in C16's scripts) and would make the driver believe the keys had been read already."""
+    for path in ("/proc/%d/task/%d/io" % (pid, pid), "/proc/%d/io" % pid):
+        try:
+            with open(path) as f:
+                return int(f.readline().split()[1])
+        except (OSError, ValueError, IndexError):
+            continue
+    return None
 
 
 def _infinite_wait(sc):
